@@ -47,7 +47,8 @@ MIN_NONTRIVIAL = 12
 REQUIRED_COUNTERS = {'c16_clone_url_cells': 12,
                      'c16_placements_reached': 120, 'c16_hang_placements': 10,
                      'c16_url_argv_placements': 10, 'c16_http_calls': 40,
-                     'c16_channels_scanned': 500}
+                     'c16_channels_scanned': 500,
+                     'c16_app_token_request_fault_cells': 8}
 SHARD_TIMEOUT = {'quick': 900, 'thorough': 5400}
 
 PASSWORDS = {
@@ -298,13 +299,31 @@ def run_http(acc, level):
         for pwclass, pw in sorted(PASSWORDS.items()):
             if flow == 'app' and pwclass != 'alnum':
                 continue
-            for reply in replies:
+            # the App flow's own token request can fail too (first answers
+            # of the host to POST .../access_tokens, then 201)
+            token_scripts = [()]
+            if flow == 'app':
+                token_scripts += [
+                    (500,), (502,), (429,), (500, 500, 500, 500, 500, 500),
+                    (401,), (404,),
+                    (requests.exceptions.ConnectionError('conn reset'),),
+                    (requests.exceptions.Timeout('timed out'),)]
+            for reply, token_script in (
+                    [(r, ()) for r in replies] +
+                    [(200, t) for t in token_scripts[1:]]):
                 jwts = []
+                pending = list(token_script)
 
-                def responder(req, reply=reply, jwts=jwts):
+                def responder(req, reply=reply, jwts=jwts, pending=pending):
                     auth = req.header('Authorization') or ''
                     if 'access_tokens' in req.path:
                         jwts.append(auth.replace('Bearer ', ''))
+                        if pending:
+                            t = pending.pop(0)
+                            if isinstance(t, int):
+                                return sc.Reply(t, json={
+                                    'message': 'error %d' % t})
+                            return t
                         return sc.Reply(201, json={'token': TOKEN})
                     if isinstance(reply, int):
                         if reply == 200:
@@ -404,6 +423,13 @@ def run_http(acc, level):
                 acc.count('c16_channels_scanned', len(ch))
                 rname = reply if isinstance(reply, int) else \
                     type(reply).__name__
+                if token_script:
+                    t = token_script[0]
+                    rname = 'token-request:%s%s' % (
+                        t if isinstance(t, int) else type(t).__name__,
+                        'x%d' % len(token_script)
+                        if len(token_script) > 1 else '')
+                    acc.count('c16_app_token_request_fault_cells')
                 acc.nontrivial('http|%s|%s|%s' % (flow, pwclass, rname))
                 acc.count('c16_http_cells')
                 for channel, snippet in hits:
@@ -416,6 +442,8 @@ def run_http(acc, level):
                                               snippet[:160]),
                         {'http': True, 'flow': flow, 'pwclass': pwclass,
                          'reply': str(rname)})
+                if token_script and not jwts:
+                    acc.count('c16_app_token_fault_without_jwt')
                 # sanity: the secret did go out in the Authorization header
                 sent = [r.header('Authorization') or ''
                         for r in adapter.requests]
